@@ -106,7 +106,7 @@ fn parse_with(fl: Flavour, base: Option<&str>, r: SimReader) -> Parsed {
         )),
         Flavour::JsonLd => {
             let p = jsonld_parser();
-            collect_quads(QuadParser::parse(&p, r))
+            collect_quads_with(QuadParser::parse(&p, r), true)
         }
     }
 }
@@ -809,7 +809,11 @@ pub fn run_c08(ctx: &mut Ctx) -> Verdict {
             ));
         }
     }
-    let bad = validate_items(fl, &p0.items);
+    if !p0.after_end.is_empty() {
+        ctx.probe("items_yielded_when_polled_after_the_end");
+    }
+    let mut bad = validate_items(fl, &p0.items);
+    bad.extend(validate_items(fl, &p0.after_end));
     if !bad.is_empty() {
         return Err(Violation::new(
             format!("invalid_term_yielded/{}", fl.name()),
@@ -833,7 +837,8 @@ pub fn run_c08(ctx: &mut Ctx) -> Verdict {
     let p1 = do_parse(fl, hs, base, r1);
     let fam = fl.name();
     crate::rt::check_noisy_read(ctx, fam, fam, &p0, &p1, &h1, &plan, &doc, fl.hash_sensitive(), false, false)?;
-    let bad = validate_items(fl, &p1.items);
+    let mut bad = validate_items(fl, &p1.items);
+    bad.extend(validate_items(fl, &p1.after_end));
     ensure!(
         bad.is_empty(),
         format!("invalid_term_yielded/{}", fl.name()),
@@ -929,7 +934,8 @@ pub fn run_enum(ctx: &mut Ctx, case: u64) -> Verdict {
                 format!("parser reported a SinkError although the consumer cannot fail: {e}"),
             ));
         }
-        let bad = validate_items(fl, &p0.items);
+        let mut bad = validate_items(fl, &p0.items);
+        bad.extend(validate_items(fl, &p0.after_end));
         if !bad.is_empty() {
             return Err(Violation::new(
                 format!("invalid_term_yielded/{}", fl.name()),
